@@ -45,6 +45,27 @@ def main():
     results = {}
     bad = 0
     counter = 0
+    outp = os.path.join(VERIF, "selftest", "results.json" if not shard else f"results.shard{shard[0]}.json")
+    old = {}
+    if os.path.exists(outp):
+        try:
+            old = json.load(open(outp))
+        except Exception:
+            old = {}
+    resume = "--resume" in sys.argv
+    done = set(old)
+    if resume:
+        for f in glob.glob(os.path.join(VERIF, "selftest", "results.shard*.json")):
+            try:
+                done |= set(json.load(open(f)))
+            except Exception:
+                pass
+
+    def save():
+        old.update(results)
+        with open(outp + ".tmp", "w") as fh:
+            json.dump(old, fh, indent=1, sort_keys=True)
+        os.replace(outp + ".tmp", outp)
     try:
         for pid in pids:
             for patch in sorted(glob.glob(os.path.join(VERIF, "selftest", pid, "*.patch"))):
@@ -52,6 +73,8 @@ def main():
                 if shard and counter % shard[1] != shard[0]:
                     continue
                 name = os.path.basename(patch)
+                if resume and f"{pid}/{name}" in done:
+                    continue
                 sh(["git", "-C", wt, "checkout", "-q", "--", "."])
                 sh(["git", "-C", wt, "clean", "-fdq"])
                 a = sh(["git", "-C", wt, "apply", "--whitespace=nowarn", patch])
@@ -76,7 +99,8 @@ def main():
                 if c.returncode not in (0, 1):
                     ok = False
                 results[f"{pid}/{name}"] = {"kind": kind, "ok": ok, "exit": c.returncode, "fails": fails[:6]}
-                print(f"{pid}/{name}: {'ok' if ok else 'UNEXPECTED'} ({kind}; exit {c.returncode}; {len(fails)} failing obligations)")
+                print(f"{pid}/{name}: {'ok' if ok else 'UNEXPECTED'} ({kind}; exit {c.returncode}; {len(fails)} failing obligations)", flush=True)
+                save()
                 if not ok:
                     bad += 1
                     print(c.stdout[-1500:])
@@ -84,16 +108,7 @@ def main():
         sh(["git", "-C", "/repo", "worktree", "remove", "--force", wt])
         sh(["git", "-C", "/repo", "worktree", "prune"])
         sh(["rm", "-rf", tmp])
-    outp = os.path.join(VERIF, "selftest", "results.json" if not shard else f"results.shard{shard[0]}.json")
-    old = {}
-    if os.path.exists(outp):
-        try:
-            old = json.load(open(outp))
-        except Exception:
-            old = {}
-    old.update(results)
-    with open(outp, "w") as fh:
-        json.dump(old, fh, indent=1, sort_keys=True)
+    save()
     print(f"{len(results)} patches, {bad} unexpected")
     return 1 if bad else 0
 
